@@ -86,12 +86,13 @@ class Ser:
     def __init__(self, env):
         self.env = env
 
-    def unit(self, unit, obj, W, in_chunked=False, missing=False):
+    def unit(self, unit, obj, W, in_chunked=False):
+        # "optional items are written until the first absent one" is a per-unit, per-chunk-segment rule:
+        # a case body starts afresh and does not report back to the unit that holds the switch
         saved = W.san
         try:
-            ctx = {"start": len(W), "missing": missing, "scope": _scope_fields(unit), "refs": _length_refs(unit), "obj": obj}
+            ctx = {"start": len(W), "missing": False, "scope": _scope_fields(unit), "refs": _length_refs(unit), "obj": obj}
             self.body(unit, ctx, W, in_chunked)
-            return ctx["missing"]
         finally:
             W.san = saved
 
@@ -237,8 +238,7 @@ class Ser:
             return
         if not isinstance(data, dict) or data.get("__case__") != case_key(c):
             raise SerError("case data of the wrong kind")
-        ended_missing = self.unit(c, data, W, in_chunked=in_chunked, missing=ctx["missing"])
-        ctx["missing"] = ctx["missing"] or ended_missing
+        self.unit(c, data, W, in_chunked=in_chunked)
 
 
 def serialize(env, unit, obj, sanitize=False):
